@@ -22,7 +22,7 @@ Qed.
 
 Lemma gstep_inv g o : gd_inv g -> gd_inv (fst (gstep g o)).
 Proof.
-  intros [Hw He]. destruct o as [o|k]; cbn [gstep].
+  intros [Hw He]. destruct o as [o|k|k]; cbn [gstep].
   - destruct o; try (
       match goal with |- context [step_i ?n ?r ?go ?l ?o] =>
         pose proof (step_err_unchanged n r go l o) as Hu;
@@ -31,6 +31,7 @@ Proof.
         [rewrite (Hu eq_refl); split; assumption | split; reflexivity]
       end).
     cbn. split; assumption.
+  - unfold gd_inv; cbn. split; [reflexivity | rewrite He, Hw; reflexivity].
   - unfold gd_inv; cbn. split; [reflexivity | rewrite He, Hw; reflexivity].
 Qed.
 
@@ -46,7 +47,7 @@ Theorem getdict_refused_write_changes_nothing g o :
   gd_inv g -> is_err (snd (gstep g o)) = true ->
   g_items (fst (gstep g o)) = g_items g /\ g_env (fst (gstep g o)) = g_env g.
 Proof.
-  intros [Hw He] Herr. destruct o as [o|k]; cbn [gstep] in *.
+  intros [Hw He] Herr. destruct o as [o|k|k]; cbn [gstep] in *.
   - destruct o; try (
       match goal with |- context [step_i ?n ?r ?go ?l ?o] =>
         pose proof (step_err_unchanged n r go l o) as Hu;
@@ -55,6 +56,7 @@ Proof.
         [split; [apply Hu; reflexivity | reflexivity] | rewrite Er in Herr; discriminate]
       end).
     cbn in Herr. discriminate.
+  - cbn. split; [exact Hw | reflexivity].
   - cbn. split; [exact Hw | reflexivity].
 Qed.
 
@@ -68,6 +70,10 @@ Proof.
       destruct (step_i n r go l o) as [l' ret] eqn:E; cbn [fst snd] in *; rewrite Hok; reflexivity end.
 Qed.
 
+Example getdict_refused_set_example :
+  gstep (mkGd [([97], [49]); ([98], [50])] [([97], [49]); ([98], [50])] [([97], [49]); ([98], [50])])%N (GBadSet [97]%N)
+  = (mkGd [([97], [49]); ([98], [50])] [([97], [49]); ([98], [50])] [([97], [49]); ([98], [50])], VErr AttributeError)%N.
+Proof. reflexivity. Qed.
 Example getdict_inv_example : gd_inv (mkGd [([97], [49])] [([97], [49])] [([97], [49])])%N.
 Proof. split; reflexivity. Qed.
 Example getdict_refused_example :
